@@ -1,4 +1,5 @@
 import Crv.Proofs.Repo
+import Crv.Proofs.Skeleton
 import Crv.Props.C03
 import Crv.Props.C06
 import Crv.Props.C18
@@ -84,5 +85,31 @@ example : inForce (run {} exOps) 1 ⟨7, [10, 11, 12], 1, 5⟩ := by
   refine ⟨_, List.mem_cons_self, ?_, ?_, ?_⟩ <;> decide
 
 example : isRevoked (run {} exOps) (run {} exOps).entries ⟨7, 12, none⟩ = .revoked := by decide
+
+-- … also across a restart with another signature mode (`Op.reconfigure`): the verified list is found on disk with its signer
+-- certificate and stays in force, the listed certificate stays rejected.
+def exOpsRestart : List Op := exOps ++ [.reconfigure .verifyLog, .handshake ⟨7, 99, some 1⟩ [], .reconfigure .verify, .handshake ⟨7, 99, some 1⟩ []]
+example : inForce (run {} exOpsRestart) 1 ⟨7, [10, 11, 12], 1, 5⟩ := by decide
+example : isRevoked (run {} exOpsRestart) (run {} exOpsRestart).entries ⟨7, 12, none⟩ = .revoked := by decide
+
+/-- The hand-written `Repo` model this property rests on was transcribed from exactly these sources: the fingerprints are
+recomputed from /repo on every run (tools/extract/skeleton.go), so any change to one of the functions breaks this obligation. -/
+theorem repo_sources_as_transcribed : Crv.Generated.skeletonRepo = Crv.Skeleton.expectedRepo :=
+  Crv.Skeleton.repo_sources_as_transcribed
+
+/-- The hand-written `Reader` model this property rests on was transcribed from exactly these sources: the fingerprints are
+recomputed from /repo on every run (tools/extract/skeleton.go), so any change to one of the functions breaks this obligation. -/
+theorem reader_sources_as_transcribed : Crv.Generated.skeletonReader = Crv.Skeleton.expectedReader :=
+  Crv.Skeleton.reader_sources_as_transcribed
+
+/-- The hand-written `Store` model this property rests on was transcribed from exactly these sources: the fingerprints are
+recomputed from /repo on every run (tools/extract/skeleton.go), so any change to one of the functions breaks this obligation. -/
+theorem store_sources_as_transcribed : Crv.Generated.skeletonStore = Crv.Skeleton.expectedStore :=
+  Crv.Skeleton.store_sources_as_transcribed
+
+/-- The hand-written `Mode` model this property rests on was transcribed from exactly these sources: the fingerprints are
+recomputed from /repo on every run (tools/extract/skeleton.go), so any change to one of the functions breaks this obligation. -/
+theorem mode_sources_as_transcribed : Crv.Generated.skeletonMode = Crv.Skeleton.expectedMode :=
+  Crv.Skeleton.mode_sources_as_transcribed
 
 end Crv.Props.C01
